@@ -80,6 +80,11 @@ def _corpus_programs():
                                          dict(F(2, "S", I(2)), args={"self": 1, "args": 2}), dict(F(3, "D", I(3)), args={"kwargs": 1, "loop": 2}),
                                          dict(F(4, "P", ["obj", [dict(F(5, "P", I(5)), args={"root": 1, "info": 2})]]), args={"ctx": 1, "callback": 2}),
                                          dict(F(6, "A", I(6)), args={"executor": 1, "future": 2}), dict(F(7, "P", I(7), lv=1), args={"timeout": 1, "value": 2})]})
+    # a list item that cannot be completed, after items with deferred / failing sub-fields
+    ps.append({"op": "query", "fields": [F(0, "C", ["list", False, "abs", [["obj", [F(1, "C", I(1)), F(2, "C", ["err", 2], sh="i")]], ["bad"],
+                                                                            ["obj", [F(1, "C", I(5)), F(2, "C", I(6))]]]]),
+                                         F(3, "C", I(3)),
+                                         F(4, "P", ["list", True, "abs", [["obj", [F(1, "S", I(1)), F(2, "C", I(2))]], ["null"], ["bad"]]], nn=True)]})
     # the family of resolver-error classes (domain constructors, keyword-only, shared instance)
     ps.append({"op": "query", "fields": [F(k, m, ["err", k], sh="i") for k, m in enumerate(["S", "P", "C", "D", "A", "C"])]
                                         + [F(6, "C", ["err", 5], sh="i"), F(7, "C", I(7))]})
@@ -243,8 +248,9 @@ def to_coq(case, obs):
         return sched_comb.c_case(case["comb"], obs)
     cfg = case["config"]
     acfg = "pool" if cfg in ("threads", "poole") else cfg
+    bad = sp.bad_paths(case["prog"])
     return "(CaseProg %s %s [%s])" % (CFG[cfg], sp.c_prog(case["prog"], acfg),
-                               ";\n ".join(sp.c_obs(o) for o in obs["runs"]))
+                               ";\n ".join(sp.c_obs(o, bad) for o in obs["runs"]))
 
 
 def show_expr(case, obs):
